@@ -330,3 +330,170 @@ Example c08_source_nonvacuous :
   /\ option_map (map p_tm) (SrcRun.src_draw ieee (SrcRun.rnd_of (SrcRun.calls_of c [u; u])) eps32 c 2 7 4 (Some [7; 3]%Z))
      = Some [Some [(4, 3); (0, 3)]; Some [(0, 3); (0, 0)]]%Z.
 Proof. cbv zeta. repeat split; vm_compute; reflexivity. Qed.
+
+(* ===== second source tie: the Python text of spec_augment_apply_parameters (masking, no warp) ================
+   PV.Gen.C08BSrc.apply_body (the WHOLE body; unit harness/py2coq/units/C08BSrc.json, which also translates warp_1d_grid
+   and spec_augment - executed against torch on every run by SrcRunB.src_*_check, no theorem yet) is regenerated from
+   /repo/src/pydrobert/torch/_img.py on every run; torch operations mean what MiniTorch.OpsC08B / OpsC08 say through
+   SrcRunB.ext_core; the feature tensor is a tensor of OPAQUE cells (arbitrary MiniPy values) which the code only
+   moves or overwrites with the Python float 0.0.  See notes/C08_tie_report.md, section "Second tie". *)
+From PV Require MiniTorch.OpsC08 MiniTorch.OpsC08B Gen.C08BSrc C08.SrcRunB C08.TieBLib C08.TieBMask C08.TieBApply C08.TieB.
+
+(* for EVERY arithmetic, EVERY answer of the two kernel oracles and EVERY meaning of nested calls (none is made on this
+   path), every feature tensor (N, T, F) of arbitrary cells, lengths omitted or N values in (0, T], warp groups (w_0, w),
+   (v_0, v) with a member None or without element, each mask group (t_0, t), (f_0, f) either OFF (a member None or without
+   element) or ON (two long tensors of one shape (N, M), N * M > 0): interpreting the source returns, without raising
+   and without calling a kernel, a tensor of the input's shape whose batch element n is Model.apply_masks (zero = the
+   float 0.0) on the (start, width) pairs of row n of the mask tensors *)
+Theorem c08_source_apply_masks_is_model : forall a spl gso nested eps N T F cells pw0 pw pv0 pv tm fm order lens,
+  TieBApply.lens_okB N T lens ->
+  (TieBLib.par_on pw0 && TieBLib.par_on pw)%bool = false -> (TieBLib.par_on pv0 && TieBLib.par_on pv)%bool = false ->
+  TieBApply.mspec_ok N tm -> TieBApply.mspec_ok N fm ->
+  exists st out,
+    Interp.run (SrcRunB.ext_core a spl gso nested) C08BSrc.apply_body
+      (SrcRunB.apply_vars eps (OpsC08B.T3 N T F cells)
+         (SrcRunB.enc_pars (TieBApply.pars_nowarp N pw0 pw pv0 pv tm fm)) order lens)
+    = Interp.Ok (OpsC08B.enc_c eps (OpsC08.mkTn [N; T; F] out)) st
+    /\ Interp.events st = []
+    /\ forall n, (n < N)%nat ->
+         SrcRunB.img_of Syntax.VNone T F out n
+         = apply_masks (Syntax.VQ 0) (TieBApply.mspec_bands tm n) (TieBApply.mspec_bands fm n)
+             (SrcRunB.img_of Syntax.VNone T F (OpsC08B.tabl3 N T F cells) n).
+Proof. exact TieB.apply_nowarp_tie. Qed.
+Print Assumptions c08_source_apply_masks_is_model.
+
+(* COMPOSED with c08_apply_zeroes_exactly_masked, purely about the interpreted source: "applying parameters zeroes
+   exactly the masked time and frequency bands, leaves every other entry bit-identical when no warp was drawn" - cell
+   (n, t, f) of the returned tensor is the float 0.0 when t lies in a time band or f in a frequency band of batch
+   element n, and is the input's cell otherwise *)
+Theorem c08_source_apply_zeroes_exactly_masked : forall a spl gso nested eps N T F cells pw0 pw pv0 pv tm fm order lens,
+  TieBApply.lens_okB N T lens ->
+  (TieBLib.par_on pw0 && TieBLib.par_on pw)%bool = false -> (TieBLib.par_on pv0 && TieBLib.par_on pv)%bool = false ->
+  TieBApply.mspec_ok N tm -> TieBApply.mspec_ok N fm ->
+  exists st out,
+    Interp.run (SrcRunB.ext_core a spl gso nested) C08BSrc.apply_body
+      (SrcRunB.apply_vars eps (OpsC08B.T3 N T F cells)
+         (SrcRunB.enc_pars (TieBApply.pars_nowarp N pw0 pw pv0 pv tm fm)) order lens)
+    = Interp.Ok (OpsC08B.enc_c eps (OpsC08.mkTn [N; T; F] out)) st
+    /\ forall n t f, (n < N)%nat -> (t < T)%nat -> (f < F)%nat ->
+         (masked_cell (TieBApply.mspec_bands tm n) (TieBApply.mspec_bands fm n) (Z.of_nat t) (Z.of_nat f) ->
+            OpsC08B.get3 Syntax.VNone T F out n t f = Syntax.VQ 0)
+         /\ (~ masked_cell (TieBApply.mspec_bands tm n) (TieBApply.mspec_bands fm n) (Z.of_nat t) (Z.of_nat f) ->
+            OpsC08B.get3 Syntax.VNone T F out n t f = cells n t f).
+Proof. exact TieB.apply_nowarp_cells. Qed.
+Print Assumptions c08_source_apply_zeroes_exactly_masked.
+
+From Coq Require Import String.   (* string literals; shadows [length], which is not used below *)
+(* the masking blocks one by one, from an arbitrary state (time masks ON: the (N, T, 1) mask the source builds is
+   "some column h of row n has start <= t < start + width") *)
+Theorem c08_source_time_mask_block : forall a spl gso nested vs ev N M T f0 f,
+  Interp.lookup "t_0"%string vs = Some (OpsC08.enc_l (OpsC08.T2 N M f0)) ->
+  Interp.lookup "t"%string vs = Some (OpsC08.enc_l (OpsC08.T2 N M f)) ->
+  Nat.eqb (OpsC08.numel [N; M]) 0 = false ->
+  Interp.lookup "T"%string vs = Some (Syntax.VInt (Z.of_nat T)) -> Interp.lookup "device"%string vs = Some SrcRun.device_token ->
+  exists vs', Interp.exec (SrcRunB.ext_core a spl gso nested) C08BSrc.apply_tmask (Interp.mkState vs ev)
+              = Interp.Ok Interp.CNormal (Interp.mkState vs' ev)
+    /\ Interp.lookup "tmask"%string vs'
+       = Some (OpsC08.enc_b (OpsC08B.T3 N T 1 (fun n t _ =>
+                 masked (map (fun h => (f0 n h, f n h)) (seq 0 M)) (Z.of_nat t))))
+    /\ forall x, String.eqb x "tmask" = false -> String.eqb x "t_1" = false -> Interp.lookup x vs' = Interp.lookup x vs.
+Proof. exact TieB.tmask_block. Qed.
+Print Assumptions c08_source_time_mask_block.
+
+(* non-vacuity: a batch of one 3 x 2 image (cells 1..6), one time band (start 1, width 1), no frequency mask, no warp:
+   the interpreted source zeroes row 1 only; the hypotheses of the theorems above hold for it *)
+Example c08_source_apply_nonvacuous :
+  let tm := TieBApply.MOn 1 (fun _ _ => 1%Z) (fun _ _ => 1%Z) in
+  let fm := TieBApply.MOff SrcRunB.PN SrcRunB.PN in
+  TieBApply.lens_okB 1 3 None /\ TieBApply.mspec_ok 1 tm /\ TieBApply.mspec_ok 1 fm
+  /\ SrcRunB.src_apply_check 0 eps32 1 3 2
+       [Syntax.VInt 1; Syntax.VInt 2; Syntax.VInt 3; Syntax.VInt 4; Syntax.VInt 5; Syntax.VInt 6]
+       (TieBApply.pars_nowarp 1 SrcRunB.PN SrcRunB.PN SrcRunB.PN SrcRunB.PN tm fm) 1 None [] [] []
+       (Some [Syntax.VInt 1; Syntax.VInt 2; Syntax.VQ 0; Syntax.VQ 0; Syntax.VInt 5; Syntax.VInt 6]) = true.
+Proof. cbv zeta. repeat split; vm_compute; reflexivity. Qed.
+
+(* ----- the wrapper `spec_augment` = draw then apply (C08BSrc.sa_body; the two calls are NESTED RUNS of the interpreter:
+   the first tie's C08Src.draw_body under SrcRun.ext08, C08BSrc.apply_body under SrcRunB.extA), no warp configured
+   (max_time_warp = max_freq_warp = 0), training mode.  For every arithmetic satisfying the rounding laws, every oracle:
+   the interpreted wrapper returns, batch element by batch element, Model.apply_masks on the masks Model.draw draws from
+   the variates torch.rand served *)
+From PV Require C08.TieBSa C08.TieBSaCor.
+Theorem c08_source_spec_augment_is_model : forall a, rounding_laws a ->
+  forall spl gso rnd eps c N T F cells order lens,
+  TieBlocks2.lens_ok N T lens -> nonzero (c_Wt c) = false -> nonzero (c_Wf c) = false ->
+  exists st out,
+    SrcRunB.run_sa a spl gso rnd eps (OpsC08B.T3 N T F cells) c order lens true
+    = Interp.Ok (OpsC08B.enc_c eps (OpsC08.mkTn [N; T; F] out)) st
+    /\ forall n, (n < N)%nat ->
+         let p := draw (SrcRun.pyq a) eps c (Z.of_nat F) (SrcRun.len_of T lens n) (SrcRun.uv_of rnd c n) in
+         SrcRunB.img_of Syntax.VNone T F out n
+         = apply_masks (Syntax.VQ 0) (p_tm p) (p_fm p) (SrcRunB.img_of Syntax.VNone T F (OpsC08B.tabl3 N T F cells) n).
+Proof. exact TieBSa.sa_nowarp_run. Qed.
+Print Assumptions c08_source_spec_augment_is_model.
+
+(* COMPOSED with the draw theorems (time_masks_ok / freq_masks_ok) and the masking theorem, purely about the interpreted
+   wrapper over Q: there are drawn bands tm / fm per batch element such that every time band obeys the width and count
+   caps and lies inside the valid length (0 <= t_0, t_0 + t <= len_n), every frequency band inside [0, F]; every cell
+   inside a band is 0.0 and EVERY OTHER CELL IS THE INPUT'S CELL - so a changed cell always lies in a drawn range
+   within the valid length (time) or the coefficients (frequency) *)
+Theorem c08_source_spec_augment_masks_inside_valid : forall spl gso rnd eps c N T F cells order lens,
+  0 < eps -> eps <= 1 -> (0 <= c_Mt c)%Z -> (0 <= c_Mf c)%Z -> 0 <= c_pt c /\ c_pt c <= 1 -> 0 <= c_npt c ->
+  (forall k i, unit_u (rnd k i)) -> TieBlocks2.lens_ok N T lens ->
+  nonzero (c_Wt c) = false -> nonzero (c_Wf c) = false ->
+  exists st out,
+    SrcRunB.run_sa exact spl gso rnd eps (OpsC08B.T3 N T F cells) c order lens true
+    = Interp.Ok (OpsC08B.enc_c eps (OpsC08.mkTn [N; T; F] out)) st
+    /\ forall n, (n < N)%nat -> exists tm fm,
+         opt_ok (tmasks_ok 0 c (SrcRun.len_of T lens n)) tm /\ opt_ok (fmasks_ok c (Z.of_nat F)) fm
+         /\ forall t f, (t < T)%nat -> (f < F)%nat ->
+              (masked_cell tm fm (Z.of_nat t) (Z.of_nat f) -> OpsC08B.get3 Syntax.VNone T F out n t f = Syntax.VQ 0)
+              /\ (~ masked_cell tm fm (Z.of_nat t) (Z.of_nat f) -> OpsC08B.get3 Syntax.VNone T F out n t f = cells n t f).
+Proof. exact TieBSaCor.sa_masks_inside_valid. Qed.
+Print Assumptions c08_source_spec_augment_masks_inside_valid.
+
+(* ----- warp_1d_grid: the KNOT CONSTRUCTION block (C08BSrc.warp_knots: `src = torch.min(src, lengths - 1).clamp_min(0)` ..
+   `dst = torch.stack([lowers, dst, uppers], 1)`), from an arbitrary state, exact arithmetic, any oracles: the two (N, 3)
+   tensors handed to polyharmonic_spline (train values `src`, train points `dst`) hold per batch element exactly
+   Model.warp_knots - pinned boundaries lowers = 1/T - 1 - eps and uppers = (2 len - 1)/T - 1 + eps, clamped source and
+   destination mapped to grid coordinates.  (General arithmetic: TieBWarp.knots_run with the as-coded TieBWarp.wk_*.)
+   The spline solve itself is an oracle; what any exact order-1 solution does with these knots is
+   c08_order1_spline_is_piecewise_linear. *)
+From PV Require C08.TieBWarp.
+Theorem c08_source_warp_knots_block_is_model : forall spl gso nested vs ev N T eps (s fl L : nat -> Q),
+  Interp.lookup "src" vs = Some (OpsC08.enc_f (OpsC08.T1 N s)) -> Interp.lookup "flow" vs = Some (OpsC08.enc_f (OpsC08.T1 N fl)) ->
+  Interp.lookup "lengths" vs = Some (OpsC08.enc_f (OpsC08.T1 N L)) -> Interp.lookup "T" vs = Some (Syntax.VInt (Z.of_nat T)) ->
+  Interp.lookup "eps" vs = Some (Syntax.VQ eps) -> Interp.lookup "N" vs = Some (Syntax.VInt (Z.of_nat N)) ->
+  Interp.lookup "device" vs = Some SrcRun.device_token ->
+  Interp.lookup "torch" vs = Some (Syntax.VDict [(Syntax.VStr "float", SrcRun.float_token); (Syntax.VStr "long", SrcRunB.long_token)]) ->
+  T <> 0%nat ->
+  exists vs' ks kd,
+    Interp.exec (SrcRunB.ext_core exact spl gso nested) C08BSrc.warp_knots (Interp.mkState vs ev)
+    = Interp.Ok Interp.CNormal (Interp.mkState vs' ev)
+    /\ Interp.lookup "src" vs' = Some (OpsC08.enc_f (OpsC08.T2 N 3 ks))
+    /\ Interp.lookup "dst" vs' = Some (OpsC08.enc_f (OpsC08.T2 N 3 kd))
+    /\ forall n, let k := warp_knots eps (Z.of_nat T) (s n) (fl n) (L n) in
+         ks n 0%nat == k_lo k /\ ks n 1%nat == k_src k /\ ks n 2%nat == k_up k
+         /\ kd n 0%nat == k_lo k /\ kd n 1%nat == k_dst k /\ kd n 2%nat == k_up k.
+Proof. exact TieBWarp.knots_block_exact. Qed.
+Print Assumptions c08_source_warp_knots_block_is_model.
+
+(* ----- warp_1d_grid, the WHOLE body (C08BSrc.warp_body) with max_length given, exact arithmetic, float tensors src / flow /
+   lengths of N entries, any interpolation order: the interpreted source asks the spline oracle exactly ONCE - train points
+   (N, 3, 1) = (lowers, dst, uppers), train values (N, 3, 1) = (lowers, src, uppers) with the knots of Model.warp_knots at
+   float32's eps, query points (N, T, 1) = coord T i - and returns the oracle's answer as the (N, T) grid.  What an exact
+   order-1 solve answers on such knots is lin3 (c08_order1_spline_is_piecewise_linear); the float32 solve is an oracle. *)
+From PV Require C08.TieBWarp2.
+Theorem c08_source_warp_1d_grid_asks_spline_with_model_knots : forall spl gso nested N T (s fl L : nat -> Q) order, T <> 0%nat ->
+  exists st ks kd,
+    Interp.run (SrcRunB.ext_core exact spl gso nested) C08BSrc.warp_body
+      (SrcRunB.warp_vars (OpsC08.enc_f (OpsC08.T1 N s)) (OpsC08.enc_f (OpsC08.T1 N fl)) (OpsC08.enc_f (OpsC08.T1 N L))
+         (Some (Z.of_nat T)) order)
+    = Interp.Ok (OpsC08.enc_f (OpsC08.mkTn [N; T]
+                   (SrcRunB.take 0 (N * T) (spl 0%nat (TieBWarp2.spl_args exact N T ks kd order))))) st
+    /\ Interp.events st = [("polyharmonic_spline"%string, TieBWarp2.spl_args exact N T ks kd order)]
+    /\ (forall n, let k := warp_knots eps32 (Z.of_nat T) (s n) (fl n) (L n) in
+          ks n 0%nat == k_lo k /\ ks n 1%nat == k_src k /\ ks n 2%nat == k_up k
+          /\ kd n 0%nat == k_lo k /\ kd n 1%nat == k_dst k /\ kd n 2%nat == k_up k)
+    /\ forall i, TieBWarp2.wq exact T i == coord (Z.of_nat T) (z2q (Z.of_nat i)).
+Proof. exact TieBWarp2.warp_run_exact. Qed.
+Print Assumptions c08_source_warp_1d_grid_asks_spline_with_model_knots.
